@@ -75,13 +75,22 @@ def variants(run, definition, n_hash, n_orders):
     return out
 
 
-def sweep(run, definitions, n_hash, n_orders):
+def launch(run, definitions, n_hash, n_orders, workers):
+    """Start the subprocess sweep in the background (it overlaps with the contract verification); returns (executor, futures)."""
     jobs = []
     for d in definitions:
         jobs += variants(run, d, n_hash, n_orders)
+    ex = cf.ThreadPoolExecutor(max_workers=max(1, min(workers, len(jobs))))
+    return ex, [ex.submit(run_worker, j) for j in jobs]
+
+
+def sweep(run, definitions, n_hash, n_orders, pending=()):
+    """Compare the digests of all variants of each definition; `pending` are (executor, futures) pairs launched earlier."""
+    res = []
+    for ex, futs in list(pending) + ([launch(run, definitions, n_hash, n_orders, 14)] if definitions else []):
+        res += [f.result() for f in futs]
+        ex.shutdown()
     fails = 0
-    with cf.ThreadPoolExecutor(max_workers=min(14, len(jobs))) as ex:
-        res = list(ex.map(run_worker, jobs))
     by_def = {}
     for args, dig, err in res:
         run.native_runs += 1
@@ -108,7 +117,8 @@ def sweep(run, definitions, n_hash, n_orders):
                 a, b = ref_args, args
                 run.findings.append(Finding(ob.name, "sweep", f"definition shape {[key[0][0], key[0][1], key[0][2], list(key[0][3])]} seed {key[1]}: (hashseed {a[4]}, order {a[3]}, {a[2]}{', after generating another definition' if a[7] else ''}) and (hashseed {b[4]}, order {b[3]}, {b[2]}{', after generating another definition' if b[7] else ''}) differ in {diff}", {"language": "python", "inputs": {"shape": [key[0][0], key[0][1], key[0][2], list(key[0][3])], "seed": key[1], "a": {"hashseed": a[4], "order_seed": a[3], "container": a[2], "warmup": a[7]}, "b": {"hashseed": b[4], "order_seed": b[3], "container": b[2], "warmup": b[7]}}, "oracle_verdict": [diff]}, True))
                 break
-    run.bounded.append({"what": "sha256 of generated EKF header/source and plain-model header/source, and the python layout (arglists, named-vector layouts, noise matrices, calibration vector), compared across subprocesses", "bound": f"{len(definitions)} definitions x {n_hash} PYTHONHASHSEED values x {n_orders} declaration/insertion orders x {{set, list}} (names include pairs differing only in capitalisation)", "failures": fails, "counted_as_proved": False})
+    n_defs = len(by_def)
+    run.bounded.append({"what": "sha256 of generated EKF header/source and plain-model header/source, and the python layout (arglists, named-vector layouts, noise matrices, calibration vector), compared across subprocesses", "bound": f"{n_defs} definitions x {n_hash} PYTHONHASHSEED values x {n_orders} declaration/insertion orders x {{set, list}} (names include pairs differing only in capitalisation)", "failures": fails, "counted_as_proved": False})
     ob = run.prove("C15.native.sweep_completed", [], z3.BoolVal(True), function="generation in subprocesses (PYTHONHASHSEED x declaration order x container)")
     return fails
 
@@ -118,13 +128,14 @@ def check(run):
 
     run.level = "other"  # layouts: proved; emitted text: bounded sweep (see EXPLANATION)
 
-    determinism_contracts.check(run)
     thorough = run.tier == "thorough"
+    n_hash, n_orders = (6, 3) if thorough else (3, 2)
+    base = [((3, 1, 2, [2, 2]), run.seed), ((2, 2, 0, [3, 1]), run.seed + 1)]
+    early = launch(run, base, n_hash, n_orders, 6)  # runs while the contracts are verified
+    determinism_contracts.check(run)
     escalate = thorough or run.findings or run.undecided or any(r.status != "ok" for r in run.reports)
-    defs = [((3, 1, 2, [2, 2]), run.seed), ((2, 2, 0, [3, 1]), run.seed + 1)]
-    if escalate:
-        defs += [((4, 0, 1, [2]), run.seed + 2), ((3, 2, 2, [1, 2]), run.seed + 3), ((2, 0, 0, []), run.seed + 4), ((4, 1, 3, [1, 1, 1]), run.seed + 5)]
-    sweep(run, defs, 6 if thorough else 3, 3 if thorough else 2)
+    extra = [((4, 0, 1, [2]), run.seed + 2), ((3, 2, 2, [1, 2]), run.seed + 3), ((2, 0, 0, []), run.seed + 4), ((4, 1, 3, [1, 1, 1]), run.seed + 5)] if escalate else []
+    sweep(run, extra, n_hash, n_orders, pending=[early])
 
 
 def replay_file(payload):
